@@ -71,6 +71,8 @@ APPLY_SRC = (
 def pass_circuits(seed, count, max_inputs=5, max_gates=12):
     """Feature circuits + seeded random DAGs rich in unary chains / duplicates / dead logic."""
     out = list(circgen.feature_circuits())
+    if seed % 8 == 0:
+        out += circgen.large_circuits(seed)
     rnd = random.Random(seed)
     pools = [
         None,
